@@ -1227,3 +1227,38 @@ pub fn edge_numbers(rng: &mut Rng, blocks: &mut [ABlock], share: f64) -> Vec<(St
     }
     done
 }
+
+/// Gives the first layer set a twin whose name differs only in letter case and lets the walls that used the original
+/// take the two names in turn (A, a, A, a ...): two different, well-formed definitions that sort next to each other
+/// only if the comparison ignores case. Returns the two names.
+pub fn case_twin_layers(b: &mut ABuilding) -> Option<(String, String)> {
+    let orig = b.layers.first()?.name.clone();
+    let pos = orig.char_indices().find(|(_, c)| c.is_ascii_alphabetic())?.0;
+    let c = orig[pos..].chars().next()?;
+    let flipped = if c.is_ascii_uppercase() { c.to_ascii_lowercase() } else { c.to_ascii_uppercase() };
+    let twin = format!("{}{}{}", &orig[..pos], flipped, &orig[pos + c.len_utf8()..]);
+    if b.layers.iter().any(|l| l.name == twin) {
+        return None;
+    }
+    let mut t = b.layers[0].clone();
+    t.name = twin.clone();
+    b.layers.push(t);
+    let mut k = 0;
+    for f in b.floors.iter_mut() {
+        for s in f.spaces.iter_mut() {
+            for w in s.walls.iter_mut() {
+                if w.layers == orig {
+                    if k % 2 == 1 {
+                        w.layers = twin.clone();
+                    }
+                    k += 1;
+                }
+            }
+        }
+    }
+    if k >= 3 {
+        Some((orig, twin))
+    } else {
+        None
+    }
+}
